@@ -40,6 +40,21 @@ Theorem C13_early_ignore_suppresses_write : forall subclass early_out late_out p
 Proof. exact early_ignore_suppresses_write. Qed.
 Print Assumptions C13_early_ignore_suppresses_write.
 
+(* a write that fails (the socket raises e): nothing counts as written, no ordinary outgoing listener hears of the
+   packet, and e reaches the caller - whatever the state of the connection *)
+Theorem C13_failed_write_not_announced : forall subclass early_out late_out write p e,
+  write p = Raise e ->
+  (forall pk, ~ In (Written pk) (fst (write_out subclass early_out late_out write p))) /\
+  (forall l, In l late_out -> ~ In (l_id l) (map l_id early_out) ->
+             ~ In (Call (l_id l) (p_key p)) (fst (write_out subclass early_out late_out write p))).
+Proof. exact failed_write_not_announced. Qed.
+Print Assumptions C13_failed_write_not_announced.
+Theorem C13_failed_write_reaches_caller : forall subclass early_out late_out write p e,
+  write p = Raise e -> snd (run_listeners subclass early_out p) = ODone ->
+  write_out subclass early_out late_out write p = (fst (run_listeners subclass early_out p), ORaised e).
+Proof. exact failed_write. Qed.
+Print Assumptions C13_failed_write_reaches_caller.
+
 (* histories: an ignore affects that packet only - the log of a history is the concatenation *)
 Theorem C13_histories : forall subclass early late reaction ps,
   (forall p, In p ps -> forall e, snd (react_in subclass early late reaction p) <> ORaised e) ->
